@@ -780,6 +780,25 @@ pub fn c10(rep: &mut Rep, seed: u64) {
         }
         if rep.samples.len() < 3 { rep.samples.push(json!({"components": base})); }
     }
+    // a demand line split in two lines with the same tags whose values add up (demand lines carry no system id), in both orders and interleaved
+    {
+        let one = "DEMANDA,ACS,100,40\nDEMANDA,CAL,10,0\n1,CONSUMO,ACS,ELECTRICIDAD,30,12\n1,CONSUMO,ACS,EAMBIENTE,70,28\n2,CONSUMO,CAL,GASNATURAL,12,0";
+        let want_needs = one.parse::<Components>().ok().map(|c| (c.needs.ACS.clone(), c.needs.CAL.clone()));
+        let want_all = all(one);
+        for (name, t) in [("demand line split in two (70 % + 30 %)", "DEMANDA,ACS,70,28\nDEMANDA,ACS,30,12\nDEMANDA,CAL,10,0\n1,CONSUMO,ACS,ELECTRICIDAD,30,12\n1,CONSUMO,ACS,EAMBIENTE,70,28\n2,CONSUMO,CAL,GASNATURAL,12,0"),
+                          ("demand line split in two, parts apart and in the other order", "DEMANDA,ACS,30,12\n1,CONSUMO,ACS,ELECTRICIDAD,30,12\nDEMANDA,CAL,2.5,0\n1,CONSUMO,ACS,EAMBIENTE,70,28\nDEMANDA,ACS,70,28\n2,CONSUMO,CAL,GASNATURAL,12,0\nDEMANDA,CAL,7.5,0")] {
+            rep.evals += 1;
+            match t.parse::<Components>() {
+                Ok(c) => {
+                    let got = Some((c.needs.ACS.clone(), c.needs.CAL.clone()));
+                    let same = match (&want_needs, &got) { (Some((a1, c1)), Some((a2, c2))) => { let veqo = |x: &Option<Vec<f32>>, y: &Option<Vec<f32>>| match (x, y) { (Some(x), Some(y)) => x.len() == y.len() && x.iter().zip(y).all(|(p, q)| eq(*p, *q)), (None, None) => true, _ => false }; veqo(a1, a2) && veqo(c1, c2) }, _ => false };
+                    if !same { rep.fail("C10.layout", t, format!("{}: building needs {:?} instead of {:?}", name, got, want_needs)); }
+                    else if let (Some(a), Some(b)) = (&want_all, all(t)) { if let Some(d) = crate::leaf::diff(a, &b, 1.0) { rep.fail("C10.layout", t, format!("{}: a figure of the result differs: {}", name, d)); } }
+                }
+                Err(e) => rep.fail("C10.layout", t, format!("{}: {}", name, e)),
+            }
+        }
+    }
 }
 
 // ------------------------------------------------------------------------------------------------ C16
